@@ -248,6 +248,8 @@ def is_clause(prop, unit, obname, kind):
 
     if any(fnmatch.fnmatch(obname, g) for g in unit.not_clauses.get(prop, ())):
         return False
+    if prop in unit.only_clauses:
+        return any(fnmatch.fnmatch(obname, g) for g in unit.only_clauses[prop])
     spec = CROSS_CUTTING.get(prop)
     if spec is None or set(unit.props) <= set(CROSS_CUTTING):
         return True
